@@ -13,7 +13,7 @@ Source anchors (tied by the correspondence run of `./check C12`):
 * `utils.similarity_transformation` (`R·M·R⁻¹`)                                                    ↦ `simTrans`
 * `… _symmetrize_group_velocity` (operations with `|q_BZ − r·q_BZ| < tol`, average of `r_cart·gv`) ↦ `inLittleGroup`, `littleGroup`, `gvSym`
 
-`eigh` of the restricted matrix (`U`), `inv(reclat)` (`Binv`) and `q − rint(q)` (`qbz`) are parameters.
+`eigh` of the restricted matrix (`U`), `inv(reclat)` (`Binv`) and the point whose site symmetry is used (`qbz`: `q − rint(q)`, or `q` itself for NAC matrices, which are not periodic in G) are parameters.
 -/
 namespace PhononModel.C12
 open PhononModel PhononModel.CP
